@@ -21,6 +21,7 @@ TPL = [["batch", 0, [1, 3]], ["links", [[1, 3], [3, 1], [2, 2]]], ["we", [[0, 3]
 def levels(tier):
     if tier == "quick":
         return [
+            {"name": "empty", "n": 0, "alphabet": ["we"], "defaults": ["never", "domain"], "backends": ["memory", "file"], "budget": 30},
             {"name": "tpl-n0", "n": 0, "prelude": TPL, "alphabet": ["we"], "defaults": ["never", "domain"], "backends": ["memory", "file"]},
             {"name": "del-n1", "n": 1, "prelude": [["links", [[1, 2], [2, 1]]], ["we", [[0, 3]]], ["we", [[1, 4]]]], "alphabet": ["delwe", "rmprefix"],
              "defaults": ["never"], "backends": ["memory"], "pool": [POOL4[0], POOL4[1], POOL4[3]], "budget": 60},
@@ -77,7 +78,8 @@ def harness(E):
     absent = pool[1].extend(z, "absent")
     fresh = PL([E.const(b"s:http|"), E.const(b"h:") + E.bytes("y", 1) + E.const(b"|")], "fresh")
     E.reach("absent-lru")
-    lrus = [pl.lru for pl in pool] + [absent.lru, fresh.lru, pool[0].prefix(2).lru]
+    absent2 = pool[0].extend(z, "absent2")
+    lrus = [pl.lru for pl in pool] + [absent.lru, absent2.lru, fresh.lru, pool[0].prefix(2).lru]
     for lru in lrus:
         q("retrieve_prefix", t.retrieve_prefix, lru)
         q("retrieve_webentity", t.retrieve_webentity, lru)
